@@ -6,6 +6,9 @@
 (* into the observation.                                                   *)
 (*  MODE "sent"  : every ABNF sentence of LO..N tokens x payload           *)
 (*                 assignments 0..(ASSIGN-1) x the first NDOCS documents   *)
+(*  MODE "chains": a primary followed by every sequence of 1..N postfix    *)
+(*                 operators (.x [n] [*] [] [?p] [n:] .* .{k:v}), also     *)
+(*                 under "!", against three nested documents               *)
 (*  MODE "spell" : token sequences with their own documents from IOEnv.IN  *)
 (***************************************************************************)
 EXTENDS Grammar, Spell, Json, IOUtils, TLC
@@ -44,22 +47,43 @@ DocPool == <<
   JArr(<<JArr(<<ObjAB, ObjABC>>), JArr(<<ObjABC>>), JArr(<<>>)>>),
   JStr(<<97, 98>>),
   MkObj(<<M(97, JArr(<<MkObj(<<M(97, JInt(1)), M(98, JInt(1))>>), MkObj(<<M(97, JInt(2)), M(98, JInt(1))>>), MkObj(<<M(98, JInt(3))>>)>>)), M(98, JTrue)>>),
-  JInt(5) >>
+  JInt(5),
+  \* 13, 14: nested documents with keys a / b at every level (operator chains need depth to tell groupings apart)
+  MkObj(<<M(97, JArr(<<MkObj(<<M(97, JArr(<<MkObj(<<M(97, JInt(1)), M(98, JTrue)>>), MkObj(<<M(97, JInt(2)), M(98, JFalse)>>)>>)), M(98, JTrue)>>),
+                      MkObj(<<M(97, JArr(<<MkObj(<<M(97, JInt(3)), M(98, JTrue)>>)>>)), M(98, JFalse)>>),
+                      MkObj(<<M(97, MkObj(<<M(97, JInt(5)), M(98, JArr(<<JInt(1)>>))>>)), M(98, JArr(<<MkObj(<<M(97, JInt(1)), M(98, JInt(1))>>)>>))>>)>>)),
+          M(98, MkObj(<<M(97, JArr(<<MkObj(<<M(98, JInt(1)), M(97, MkObj(<<M(98, JInt(2))>>))>>)>>)), M(98, JArr(<<JArr(<<JInt(1), MkObj(<<M(97, JInt(2))>>)>>), JArr(<<JInt(3)>>)>>))>>))>>),
+  JArr(<<MkObj(<<M(97, JArr(<<JArr(<<MkObj(<<M(97, JTrue), M(98, JArr(<<JInt(1), JInt(2)>>))>>), JInt(7)>>), JArr(<<>>)>>)), M(98, JArr(<<JTrue, JNull>>))>>),
+         JArr(<<MkObj(<<M(97, JInt(1)), M(98, MkObj(<<M(97, JArr(<<JInt(1), JInt(2)>>))>>))>>), MkObj(<<M(98, JTrue)>>)>>),
+         MkObj(<<M(98, MkObj(<<M(97, MkObj(<<M(98, JArr(<<MkObj(<<M(97, JInt(1))>>)>>))>>)), M(98, JInt(0))>>))>>)>>) >>
+
+(* operator chains: a primary followed by up to N postfix operators, every sequence of them, optionally under "!" *)
+Postfix == {<<"Dot", "Ident">>, <<"Lbracket", "Num", "Rbracket">>, <<"Lbracket", "Star", "Rbracket">>, <<"Flatten">>,
+            <<"Filter", "Ident", "Rbracket">>, <<"Lbracket", "Num", "Colon", "Rbracket">>, <<"Dot", "Star">>,
+            <<"Dot", "Lbrace", "Ident", "Colon", "Ident", "Rbrace">>}
+RECURSIVE ChainsOf(_)
+ChainsOf(n) == IF n = 0 THEN {<<>>} ELSE LET c == ChainsOf(n - 1) IN c \cup {x \o p : x \in {y \in c : TRUE}, p \in Postfix}
+ChainKinds(z) == LET cs == ChainsOf(N) \ {<<>>}
+              IN {<<"Ident">> \o c : c \in cs} \cup {<<"At">> \o c : c \in cs} \cup {<<"Not", "Ident">> \o c : c \in cs}
+ChainCases(z) ==
+  LET all == SetToSeq(ChainKinds(0))
+      pairs == SetToSeq({<<i, d>> : i \in DOMAIN all, d \in {2, 13, 14}})
+  IN [x \in DOMAIN pairs |-> [e |-> "eval", text |-> Spell(Toks(all[pairs[x][1]], 0), "tight", 0), d |-> pairs[x][2]]]
 
 NoAmp(s) == \A i \in DOMAIN s : s[i] # "Amp"
 
-SentCases ==
+SentCases(z) ==
   LET G == Sets(N)
       all == SetToSeq({s \in UNION {G.E[n] : n \in LO..N} : NoAmp(s)})
       trip == SetToSeq({<<i, j, d>> : i \in DOMAIN all, j \in 0..(ASSIGN - 1), d \in 1..NDOCS})
   IN [x \in DOMAIN trip |-> [e |-> "eval", text |-> Spell(Toks(all[trip[x][1]], trip[x][2]), "spaced", trip[x][2] % 2),
                              d |-> trip[x][3]]]
 
-SpellCases ==
+SpellCases(z) ==
   LET ps == ndJsonDeserialize(IOEnv.IN)
   IN [i \in DOMAIN ps |-> [e |-> "eval", text |-> Spell(ps[i].toks, "spaced", 0), doc |-> ps[i].doc]]
 
-Cases == IF IOEnv.MODE = "sent" THEN SentCases ELSE SpellCases
-ASSUME ndJsonSerialize(IOEnv.OUT, Cases)
+Cases(z) == IF IOEnv.MODE = "sent" THEN SentCases(0) ELSE IF IOEnv.MODE = "chains" THEN ChainCases(0) ELSE SpellCases(0)
+ASSUME ndJsonSerialize(IOEnv.OUT, Cases(0))
 ASSUME ndJsonSerialize(IOEnv.OUT \o ".docs", <<[docs |-> DocPool]>>)
 =============================================================================
